@@ -41,7 +41,9 @@ class ProxyFamily(ScenarioFamily):
                 st = r.choice([204, 299, 201])
             else:
                 st = r.choice([101, 301, 302, 400, 403, 407, 500, 502, 503])
-            plan = {"status": st, "reason": r.choice([b"Connection established", b"Nope", b"OK"]),
+            plan = {"status": st, "reason": r.choice([b"Connection established", b"Nope", b"OK",
+                                                      b"Authentification n\xe9cessaire",
+                                                      b"\xff\xfe"]),
                     "framing": "none", "headers": [], "header_lines": []}
             if st >= 300 and r.random() < 0.5:
                 n = r.randint(0, 200)
